@@ -5,6 +5,7 @@ package main
 import (
 	"fmt"
 	"go/ast"
+	"go/constant"
 	"go/token"
 	"strings"
 )
@@ -76,8 +77,33 @@ func checkC12(c *Ctx, r *Report) {
 	}
 	// SetNT is what makes a left-hand side a nonterminal: InsertNewRules marks and records it
 	if f := c.need(r, "C12.a", "Grammar", "Grammar", "InsertNewRules"); f != nil {
-		src := strings.Join(strings.Fields(printNode(c.Fset, f.Decl.Body)), " ")
-		ok := strings.Contains(src, "r.LeftPart.SetNT()") && strings.Contains(src, "g.VnSet[r.LeftPart] = true")
+		cf := newCoverFn(f)
+		ps := paramObjs(cf.info, f.Decl)
+		marks, records := false, false
+		if len(ps) == 1 {
+			for _, s := range f.Decl.Body.List { // function level: unconditional
+				switch x := s.(type) {
+				case *ast.ExprStmt:
+					if call, isC := x.X.(*ast.CallExpr); isC {
+						if fn := callee(cf.info, call); fn != nil && fn.Name() == "SetNT" {
+							if se, isS := unparen(call.Fun).(*ast.SelectorExpr); isS && cf.selOn(se.X, "LeftPart", ps[0]) {
+								marks = true
+							}
+						}
+					}
+				case *ast.AssignStmt:
+					if len(x.Lhs) == 1 && len(x.Rhs) == 1 {
+						if ix, isI := unparen(x.Lhs[0]).(*ast.IndexExpr); isI && fieldNamed(cf.info, ix.X, "VnSet") && cf.selOn(ix.Index, "LeftPart", ps[0]) {
+							// (selOn follows `lhs := r.LeftPart`)
+							if cv := constOf(cf.info, x.Rhs[0]); cv != nil && cv.Kind() == constant.Bool && constant.BoolVal(cv) {
+								records = true
+							}
+						}
+					}
+				}
+			}
+		}
+		ok := marks && records
 		r.Check(ok, "C12.a", "R1 PROVENANCE", f.Name, c.pos(f.Decl.Pos()), "every inserted rule marks its left-hand side as a nonterminal and records it in VnSet", "an inserted rule's left-hand side is not marked as nonterminal and recorded in VnSet")
 	}
 	// C12.b undefined symbols
